@@ -36,7 +36,7 @@ for n, c in [("ax_lt_irrefl", "!(a < a)"), ("ax_lt_trans", "a<b && b<c ==> a<c")
              ("ax_zero_refl", "0.0 == 0.0"), ("ax_ceil_cast_saturates", "x.ceil() as usize saturates"),
              ("ax_eps_pos", "0 < f64::EPSILON finite, -inf < +inf"), ("ax_sub_add_pos", "finite e > 0, a not NaN ==> a - e <= a <= a + e (ax_sub_pos_le, ax_add_pos_ge)"),
              ("ax_order_misc", "a<b or a<=b ==> neither is NaN; a<b ==> !(a>b); a<=b ==> !(a>b)"),
-             ("ax_clamp", "lo <= hi ==> clamp keeps NaN, else lo <= clamp(x) <= hi, and returns x bit for bit when lo <= x <= hi"), ("ax_nan_arith", "NaN - e, NaN + e are NaN; a < e ==> a <= e (ax_lt_le)")]:
+             ("ax_clamp", "lo <= hi ==> clamp keeps NaN, else lo <= clamp(x) <= hi, and returns x bit for bit when lo <= x <= hi"), ("ax_nan_arith", "NaN - e, NaN + e are NaN; a < e ==> a <= e (ax_lt_le)"), ("ax_unit_range", "-1 < 1 and 1 - (-1) is finite")]:
     h(n, ["C09"], "proof", "complete", "EXACT axiom audit: " + c + "; all f64 bit patterns", [FL])
 
 
